@@ -56,7 +56,32 @@ func detunnelStatus(p *pkg) int64 {
 	}
 	decodeAt, receiveAt := -1, -1
 	var status int64 = -1
+	// the error branch `{ http.Error(res, …, <status>); return }`
+	branchStatus := func(ifs *ast.IfStmt) {
+		if len(ifs.Body.List) != 2 {
+			fatalf("%s: DecodeTunnelledQuery is not followed by `if err != nil { http.Error(...); return }`", p.dir)
+		}
+		es, ok := ifs.Body.List[0].(*ast.ExprStmt)
+		if !ok || callName(es.X) != "Error" || len(es.X.(*ast.CallExpr).Args) != 3 {
+			fatalf("%s: the de-tunnelling error branch does not call http.Error", p.dir)
+		}
+		if _, ok := ifs.Body.List[1].(*ast.ReturnStmt); !ok {
+			fatalf("%s: the de-tunnelling error branch does not return", p.dir)
+		}
+		v, ok := p.eval(es.X.(*ast.CallExpr).Args[2], 0)
+		if !ok {
+			fatalf("%s: cannot evaluate the de-tunnelling error status", p.dir)
+		}
+		status, _ = constant.Int64Val(constant.ToInt(v))
+	}
 	for i, st := range fd.Body.List {
+		// `if err := DecodeTunnelledQuery(req); err != nil { … }`
+		if ifs, ok := st.(*ast.IfStmt); ok && ifs.Init != nil {
+			if as, ok := ifs.Init.(*ast.AssignStmt); ok && len(as.Rhs) == 1 && callName(as.Rhs[0]) == "DecodeTunnelledQuery" {
+				decodeAt = i
+				branchStatus(ifs)
+			}
+		}
 		if as, ok := st.(*ast.AssignStmt); ok && len(as.Rhs) == 1 {
 			switch callName(as.Rhs[0]) {
 			case "DecodeTunnelledQuery":
@@ -65,21 +90,10 @@ func detunnelStatus(p *pkg) int64 {
 					fatalf("%s: nothing follows DecodeTunnelledQuery in ServeHTTP", p.dir)
 				}
 				ifs, ok := fd.Body.List[i+1].(*ast.IfStmt)
-				if !ok || len(ifs.Body.List) != 2 {
+				if !ok {
 					fatalf("%s: DecodeTunnelledQuery is not followed by `if err != nil { http.Error(...); return }`", p.dir)
 				}
-				es, ok := ifs.Body.List[0].(*ast.ExprStmt)
-				if !ok || callName(es.X) != "Error" || len(es.X.(*ast.CallExpr).Args) != 3 {
-					fatalf("%s: the de-tunnelling error branch does not call http.Error", p.dir)
-				}
-				if _, ok := ifs.Body.List[1].(*ast.ReturnStmt); !ok {
-					fatalf("%s: the de-tunnelling error branch does not return", p.dir)
-				}
-				v, ok := p.eval(es.X.(*ast.CallExpr).Args[2], 0)
-				if !ok {
-					fatalf("%s: cannot evaluate the de-tunnelling error status", p.dir)
-				}
-				status, _ = constant.Int64Val(constant.ToInt(v))
+				branchStatus(ifs)
 			case "receive":
 				if receiveAt < 0 {
 					receiveAt = i
